@@ -85,6 +85,10 @@ static void modelTest(const Desc& d, const Vec<int>& testGroups, const Vec<int>&
                 ExpFail f; f.token = o.s2; f.file = file; f.line = (size_t)o.d; f.testName = formattedName(T); f.anyLocation = false; f.kind = 0;
                 x.fails.push_back(f); term = true; break;
             }
+            case K_ADD_FAILURES: {       // recorded, printed, and the phase goes on
+                for (int64_t n = 0; n < o.a; n++) { ExpFail f; f.token = o.s2; f.file = file; f.line = (size_t)o.d; f.testName = formattedName(T); f.anyLocation = false; f.kind = 0; x.fails.push_back(f); }
+                break;
+            }
             case K_THROW_STD: case K_THROW_FOREIGN: {
                 ExpFail f; f.token = o.kind == K_THROW_STD ? o.s2 : Str("Unexpected exception of unknown type was thrown"); f.file = T.sarg(2); f.line = (size_t)T.arg(1);
                 f.testName = formattedName(T); f.anyLocation = false; f.kind = 1;
